@@ -826,6 +826,7 @@ def makeringlatticeCIJ(n, k, seed=None):
         dCIJ = np.triu(CIJ1, seq[count]) - np.triu(CIJ1, seq[count] + 1)
         dCIJ2 = np.triu(CIJ1, seq2[count]) - np.triu(CIJ1, seq2[count] + 1)
         dCIJ = dCIJ + dCIJ.T + dCIJ2 + dCIJ2.T
+        dCIJ = (dCIJ > 0).astype(float)  # the antipodal band (even n) coincides with its wrap-around
         CIJ += dCIJ
         kk = int(np.sum(CIJ))
         count += 1
